@@ -448,6 +448,71 @@ def o6_pool_row(chk, prog):
     chk.end(ob)
 
 
+@expectation('c18_server_drop')
+def c18_server_drop():
+    """Native: a Server whose ServerStats entry is registered is dropped (healthy or marked bad): the registry no longer lists it."""
+    def f(res):
+        for r in res:
+            if 'error' in r or 'panic' in r:
+                return False, 'native: %r' % (r,)
+            if not r.get('listed_before') or r.get('listed_after_good') or r.get('listed_after_bad'):
+                return True, 'native: server entry listed before the drop: %r; after dropping a healthy connection: %r; after dropping one marked bad: %r' % (
+                    r.get('listed_before'), r.get('listed_after_good'), r.get('listed_after_bad'))
+        return False, 'native: %r' % (res,)
+    return f
+
+
+def o7_server_drop(chk, prog):
+    """The other end of O4: a server connection that goes away -- however -- takes its entry out of the statistics, once."""
+    dr = [f for n, f in prog.funcs.items() if re.search(r'server::<impl at [^>]*>::drop$', n) and (prog.impl_of.get(n, ('', ''))[0] or '').endswith('Server')]
+    if len(dr) != 1:
+        raise Inconclusive('cannot locate <Server as Drop>::drop (%d candidates)' % len(dr))
+    ob = chk.begin('O7-server-drop', '<Server as Drop>::drop from MIR on a connection with SYMBOLIC flags (bad, in transaction, in copy mode ...), the Terminate write succeeding, '
+                   'falling short or failing (solver\'s choice): ServerStats::disconnect is called exactly once -- the entry bb8\'s connect hook registered (O4) is removed whenever the '
+                   'connection object goes away', {})
+    ip = chk.interp(prog, 'O7-server-drop')
+    base = list(ip.overrides)
+
+    def harness(ip_):
+        ip_.overrides[:] = base
+        calls = []
+
+        def rec(c, *a):
+            calls.append(c.callee.rsplit('::', 1)[-1])
+            t_ = (c.dest_ty or '').strip()
+            return unit() if t_ in ('()', '') else ip_.fresh_of_type(t_, 'stat')
+
+        def try_write(c, *a):
+            k = ip_.choose(3, 'terminate_write')
+            from mirsym.models.util import ok as _ok, err as _err
+            return _ok(ip_, BV(64, 5)) if k == 0 else (_ok(ip_, BV(64, 2)) if k == 1 else _err(ip_, Opaque('io::Error', 'wouldblock')))
+        ip_.overrides[:0] = [
+            (re.compile(r'^(?:stats::\w+::)?ServerStats::\w+$'), rec),
+            (re.compile(r'try_write$'), try_write),
+            (re.compile(r'get_mut$'), lambda c, p: p),
+            (re.compile(r'^<NaiveDateTime as (?:std::ops::)?Sub>::sub$'), lambda c, a, b: Opaque('Duration', 'session')),
+            (re.compile(r'^chrono::.*::now$|naive_utc$'), lambda c, *a: Opaque('Time', 't')),
+            (re.compile(r'format_duration$'), lambda c, d: rstring('0d 00:00:00.000')),
+        ]
+        st = StreamV([], 'server')
+        srv, pre, prebuf = mk_symbolic_server(ip_, prog, st, 0, bad=sym_flag(ip_, 'pre_bad'))
+        try:
+            ip_.call_function(dr[0], [Ptr(Cell(srv, 'server'))])
+        except Panic as p:
+            raise Inconclusive('Server::drop panic: ' + p.msg)
+        ob.nontrivial += 1
+        n = calls.count('disconnect')
+        if n != 1:
+            chk.report(ob, 'C18/O7/server-drop', 'a server connection is dropped and ServerStats::disconnect is called %d time(s) (statistics calls: %r): its entry %s' % (
+                n, calls, 'stays listed in SHOW SERVERS and is counted in SHOW POOLS for ever' if n == 0 else 'is removed more than once'), {'calls': calls},
+                {'commands': [{'op': 'server_drop_stats'}], 'expect': ['c18_server_drop']})
+        if len(ob.samples) < 2:
+            ob.samples.append({'statistics_calls': list(calls)})
+    ip.explore(harness)
+    chk.absorb(ob, ip)
+    chk.end(ob)
+
+
 def o1_rollup(chk, prog, cpools, spools):
     nclients, nservers = len(cpools), len(spools)
     name = 'O1-rollup-clients%s-servers%s' % (''.join(map(str, cpools)), ''.join(map(str, spools)))
@@ -553,11 +618,11 @@ def main(chk):
         '(O3) a CancelRequest connection -- the real Client::cancel, handle in cancel mode, the drop -- makes no statistics call on the entry of the process id it names. '
         '(O4) bb8\'s connect hook, ServerPool::connect from MIR with Server::startup succeeding or failing: the connection is registered once and handed to bb8 in state idle; '
         'a failed connect leaves nothing registered. (O5) SHOW CLIENTS as the admin console renders it (admin::handle_admin from MIR over a registry of two clients with symbolic states): one row per '
-        'registered client with its own id, pool, user, application, its state in words and its own totals in the columns named so. (O6) SHOW POOLS rows: the column named after a counter carries that counter (PoolStats::generate_header / generate_row from MIR). NOT decided: the rendering of SHOW SERVERS / LISTS, consistency of the global registries under concurrent tasks, Server::drop\'s disconnect, '
+        'registered client with its own id, pool, user, application, its state in words and its own totals in the columns named so. (O6) SHOW POOLS rows: the column named after a counter carries that counter (PoolStats::generate_header / generate_row from MIR). (O7) <Server as Drop>::drop from MIR with symbolic flags: the entry is removed exactly once whenever the connection object goes away. NOT decided: the rendering of SHOW SERVERS / LISTS, consistency of the global registries under concurrent tasks, '
         'bytes/error totals, and that totals never decrease across pool reloads.')
     chk.assumptions += [
         'one session at a time; the registries themselves (RwLock<HashMap>) and their concurrent readers are not encoded',
-        'in the handle harness servers are pre-connected; their registration is decided by O4 (connect hook) only; disconnect in Server::drop is not decided',
+        'in the handle harness servers are pre-connected; their registration is decided by O4 (connect hook), their removal by O7 (Server::drop)',
     ]
     prog = chk.program('on')
     tasks = [(prog, (0, 1, 2), (0, 1)), (prog, (0, 0, 1), (1, 2)), (prog, (0, 0, 0), (0, 0))]
@@ -576,6 +641,10 @@ def main(chk):
         o6_pool_row(chk, prog)
     except Inconclusive as e:
         chk.note_inconclusive('O6-pool-row: %s' % e)
+    try:
+        o7_server_drop(chk, prog)
+    except Inconclusive as e:
+        chk.note_inconclusive('O7-server-drop: %s' % e)
     try:
         o3_cancel_conn(chk, prog)
     except Inconclusive as e:
